@@ -261,7 +261,7 @@ PROPS = {
                         "fmt's %c/%q/%d and strings.Builder behave as the model's string building (compared through the rendered error text)"],
     },
     "C08": {
-        "lean": ["Knut.Properties.C08", "Knut.FactsAgree.TransScanner", "Knut.FactsAgree.TransParser", "Knut.FactsAgree.TransParser2", "Knut.FactsAgree.TransParser3", "Knut.FactsAgree.TransParser4", "Knut.FactsAgree.TransPrinter", "Knut.FactsAgree.TransPrinter2", "Knut.FactsAgree.TransPrinter3", "Knut.Properties.C08Go"],
+        "lean": ["Knut.Properties.C08", "Knut.FactsAgree.TransScanner", "Knut.FactsAgree.TransParser", "Knut.FactsAgree.TransParser2", "Knut.FactsAgree.TransParser3", "Knut.FactsAgree.TransParser4", "Knut.FactsAgree.TransPrinter", "Knut.FactsAgree.TransPrinter2", "Knut.FactsAgree.TransPrinter3", "Knut.Properties.C08Go", "Knut.FactsAgree.C08"],
         "level": "proof",
         "claim": "Lean theorems for ALL byte strings over the models of lib/syntax/parser, lib/syntax/printer (extract the fields, then render; same format strings, fmt padding counted in runes) and formatRunner.formatFile: C08_unparseable_untouched; C08_format_total (formatting a parsed file never violates a slice bound); C08_gaps_verbatim (output = the input's own gap slices interleaved with the re-rendered directives); C08_reparse_same_fields (the output parses, to the same number and kinds of directives with byte-identical dates, accounts, amounts, commodities, descriptions/paths, @accrue fields and @performance targets, annotation order normalised; the gaps of the output are the gaps of the input); C08_idempotent (format of the output is the output); C08_command (the disjunction for the command). All stages closed (open/close/price/include/single-line assertion, transactions with both addons in any order, multi-line assertions incl. the one-balance form); no _partial theorem remains. Proof: token-level grammar of every field with soundness and completeness of each parser function, decomposition of a successful ParseFile run into items, replay of the main loop on the rendered tokens, UTF-8 self-delimitation for re-decoding. Tie: syntax.FormatFile in-process and `knut format` on temp files are compared byte for byte with the model; the Lean predicate formatOK (same directives and fields by semFlat incl. macro-account kinds, gaps byte for byte) is evaluated on the two real trees; reparse and format-twice are checked on the real code for every case; unparseable files are checked untouched through the CLI.",
         "note": "The theorems compare typed field views (viewDirective); the monitor compares the untyped semFlat of the dumped trees (which also carries the macro-account kind) - the two formalisations of \"same fields\" are proved equivalent on parsed files (C08_monitor_iff: formatOK on the two trees iff views and gaps agree; C08_monitor_sound: formatOK holds of the model; Proofs/SyntaxSem.lean: for a tree the parser returned the account kind and the annotation nodes are functions of the field bytes, semFlat = semFileV of the views, semFileV injective). Trusted: Lean kernel; axioms propext, Classical.choice, Quot.sound; fmt padding (%-*s, %10s count runes) and strings.Join as modelled (compared byte for byte); "
@@ -271,7 +271,12 @@ PROPS = {
                 "assertions, annotations before non-transactions, transactions ending at EOF, CR/tab inside directives); mutated (byte-level edits, mostly unparseable); formatted "
                 "(already formatted text); cli (`knut format` on one or two temp files: file bytes afterwards, exit status, no leftover files). Every in-process case: "
                 "syntax.FormatFile output vs model output byte for byte; monitors on the real output: it parses, Lean formatOK (same directives/fields by semFlat, gaps equal) on the "
-                "two real trees, formatting again changes nothing; cli: unparseable files untouched. A class = outcome x changed? x directive-kind set x layout tags.",
+                "two real trees, formatting again changes nothing; cli: unparseable files untouched. "
+                "flags, flags-infer (harness/c08_cli.go): the flags of `knut format` / `knut infer` are read from `--help` on every run (and pinned to the reviewed surface by FactsAgree/C08); "
+                "every subset of up to three of the boolean flags offered - reviewed or not - in all spellings and positions, on unformatted / formatted / unparseable files, one and several, "
+                "with a line above 64 KiB; judged on what is on disk afterwards: unparseable untouched, still parses, formatOK against the original, format of it (in process and by a second plain "
+                "`knut format`) = plain format of the original; infer with an absent account: --inplace = FormatFile of the target, otherwise target untouched and stdout judged as formatted text. "
+                "A class = outcome x changed? x directive-kind set x layout tags.",
         "assumptions": ["fmt.Fprintf padding verbs and strings.Join behave as renderDir (compared on every case)",
                         "the parser model equals the Go parser (C07's correspondence, re-exercised here through c08format)"],
     },
